@@ -55,15 +55,16 @@ def lrc_obligations(ctx, queries, prefix=""):
     quick = ctx["tier"] == "quick"
     obs = []
     plan = {
-        # (slice, L quick, L thorough)
-        "full_noreserved": (6, 8),
-        "operators": (7, 9),
-        "brackets": (8, 10),
-        "statements": (7, 9),
+        # (slice, L quick, L thorough, cubes in the thorough tier)
+        "full_noreserved": (6, 8, 8),
+        "operators": (7, 9, 4),
+        "brackets": (8, 10, 3),
+        "statements": (7, 9, 1),
     }
     for q in queries:
-        for sl, (lq, lt) in plan.items():
+        for sl, (lq, lt, ncubes) in plan.items():
             L = lq if quick else lt
+            cubes = [None] if quick or ncubes == 1 else [(i, ncubes) for i in range(ncubes)]
             if q == "error_token":
                 L = max(4, L - 1)
             if q == "consistency" and sl == "full_noreserved":
@@ -72,12 +73,15 @@ def lrc_obligations(ctx, queries, prefix=""):
                 sl_use = sl
             groups = ["bin-left", "bin-right", "uminus-right", "not-right", "suffix-left", "index-left"] if q == "patterns" else [None]
             for g in groups:
-                oid = f"{prefix}{q}.{sl_use}" + (f".{g}" if g else "")
+              for cube in (cubes if q in ("consistency", "error_token", "completeness", "soundness") else [None]):
+                oid = f"{prefix}{q}.{sl_use}" + (f".{g}" if g else "") + (f".cube{cube[0]}of{cube[1]}" if cube else "")
                 param = {"L": L, "slice": sl_use}
                 if g:
                     param["group"] = g
-                obs.append(Obligation(oid, "z3", "lrc_checks", q, param=param, timeout=240 if quick else 1500, twin_timeout=0,
-                                      bounds=f"all token strings of length <= {L} over the {sl_use} alphabet",
+                if cube:
+                    param["cube"] = list(cube)
+                obs.append(Obligation(oid, "z3", "lrc_checks", q, param=param, timeout=240 if quick else 2400, twin_timeout=0,
+                                      bounds=f"all token strings of length <= {L} over the {sl_use} alphabet" + (f" whose first token lies in share {cube[0] + 1}/{cube[1]} of the alphabet" if cube else ""),
                                       desc={"consistency": "every token string is accepted xor stops at exactly one error configuration (token or end of input)",
                                             "error_token": "the token given to p_error has no accepted continuation (two charts sharing the prefix)",
                                             "patterns": f"no accepted string has an unparenthesised {g} child that contradicts the operator table",
